@@ -16,6 +16,8 @@ ASSUMPTIONS = [
     "starting trees are valid per ISO 32000 7.9.6/7.9.7 (the repair path NNTreeImpl::repair/validate on damaged trees is C08's subject and is not modelled)",
     "name-tree keys are compared through getUTF8Value(); the PDFDoc/UTF-16 decoding itself is qpdf's (C14 covers it)",
     "iterator insertAfter is only specified when the key belongs at that position (header: DANGER ...); other uses are compared model-vs-implementation only",
+    "number keys are exercised within 63 bits (the OCaml runner's int); long long extremes are not",
+    "attachments: checked through the qpdf CLI against a dictionary specification written in this harness (no Coq model); file specifications are those the CLI creates (/F and /UF equal)",
 ]
 
 W_RE = re.compile(r"w\d+$")
